@@ -20,7 +20,7 @@ use vmodel::*;
 pub fn spec() -> PropSpec {
     PropSpec {
         id: "C19",
-        rule: "cases: (modulus | bit length | precision, RNG stream, number of sequential draws). Moduli: significant limbs 1..=N inside an N-limb type, top limb in {1, 2^j, 2^j-1, 2^j+1, MAX, MAX-1, random}, low limbs all-0 / all-MAX / 0-MAX mix / random. Bit lengths: uniform over 0..=BITS plus limb/32-bit boundaries, BITS+1.., 2^31, u32::MAX (error path); precisions equal / unequal. Streams: a recorded byte script (all-zero, all-ones, counting bytes, candidates built relative to the modulus: m-1, 0, m, m+1, top limb equal with low limbs 0/MAX, top limb one above, junk above the mask, alternating reject/accept) followed by a ChaCha8 tail (infallible forms) or by an RNG error after a cut (fallible forms). Every API form is run on the same stream and compared with the reference sampler, the range, the documented error condition and the fixed/boxed twin (value, bytes consumed, call sequence). Uniformity: exhaustive enumeration of all 1-byte (moduli 1..=255) and 2-byte (moduli up to 16 bits) streams for Limb, of all masked top-word values for Uint/BoxedUint with moduli <= 2^10, chi-square on 2^20 ChaCha draws per small modulus (m <= 1024; Laurent-Massart bound, false alarm <= 1e-12 per case) and a 64-bin chi-square on 2^18 draws for multi-limb moduli. non-trivial: modular / non-zero sampling: the stream (for uniformity cases: the enumerated or drawn streams) contains >= 1 rejected candidate; bit-bounded sampling: the bit length is not a multiple of 32 (all-lengths cases: always, they contain such lengths); ConstMontyForm: >= 1 rejected candidate. surface/* sub-checks: the same case kinds (same rules) at 5, 6, 7 limbs and with 3-, 5-, 7-limb ConstMontyForm moduli; generic-impl instantiations Wrapping<Int>, NonZero<Wrapping<Uint>>, NonZero<Wrapping<Limb>>, NonZero<ConstMontyForm> and generic-function / dyn RngCore routes (non-trivial: >= 1 rejected zero / candidate, or a bit length that is not a multiple of 32). distinct by modulus / bit length / precisions / script / tail seed / draws.",
+        rule: "cases: (modulus | bit length | precision, RNG stream, number of sequential draws). Moduli: significant limbs 1..=N inside an N-limb type, top limb in {1, 2^j, 2^j-1, 2^j+1, MAX, MAX-1, random}, low limbs all-0 / all-MAX / 0-MAX mix / random. Bit lengths: uniform over 0..=BITS plus limb/32-bit boundaries, BITS+1.., 2^31, u32::MAX (error path); precisions equal / unequal. Streams: a recorded byte script (all-zero, all-ones, counting bytes, candidates built relative to the modulus: m-1, 0, m, m+1, top limb equal with low limbs 0/MAX, top limb one above, junk above the mask, alternating reject/accept) followed by a ChaCha8 tail (infallible forms) or by an RNG error after a cut (fallible forms). Every API form is run on the same stream and compared with the reference sampler, the range, the documented error condition and the fixed/boxed twin (value, bytes consumed, call sequence). Uniformity: exhaustive enumeration of all 1-byte (moduli 1..=255) and 2-byte (moduli up to 16 bits) streams for Limb, of all masked top-word values for Uint/BoxedUint with moduli <= 2^10, chi-square on 2^20 ChaCha draws per small modulus (m <= 1024; Laurent-Massart bound, false alarm <= 1e-12 per case) and a 64-bin chi-square on 2^18 draws for multi-limb moduli. non-trivial: modular / non-zero sampling: the stream (for uniformity cases: the enumerated or drawn streams) contains >= 1 rejected candidate; bit-bounded sampling: the bit length is not a multiple of 32 (all-lengths cases: always, they contain such lengths); ConstMontyForm: >= 1 rejected candidate. surface/* sub-checks: the same case kinds (same rules) at 5, 6, 7 limbs and with 3-, 5-, 7-limb ConstMontyForm moduli; generic-impl instantiations Wrapping<Int>, NonZero<Wrapping<Uint>>, NonZero<Wrapping<Limb>>, NonZero<ConstMontyForm> and generic-function / dyn RngCore routes (non-trivial: >= 1 rejected zero / candidate, or a bit length that is not a multiple of 32). distinct by modulus / bit length / precisions / script / tail seed / draws. Since seeding round 4: candidates whose comparison with the modulus is decided at a chosen limb (all higher limbs tie, lower limbs free).",
         assumptions: vec![
             "an RNG is modelled as a byte stream: next_u32 / next_u64 read 4 / 8 bytes little-endian, fill_bytes(n) reads n bytes (ChaCha block RNGs behave this way on 4-byte boundaries)".into(),
             "the reference samplers follow the algorithm documented in the source comments of random_mod_core / random_bits_core / Limb::try_random_mod (high word first with early rejection, little-endian low limbs, 4-byte tail rule); they use only u64 / byte arithmetic".into(),
